@@ -80,19 +80,23 @@ impl<K, V> View for BTreeMap<K, V> { type V = Map<K, V>; uninterp spec fn view(&
 
 // ---- the identity (server/identity.rs): uninterpreted observers ----
 pub struct Identity { _p: u8 }
-pub struct IdentityId { _p: u8 }
+#[derive(PartialEq, Eq)]
+pub struct IdentityId { pub o: u64 }
+impl vstd::std_specs::cmp::PartialEqSpecImpl for IdentityId { open spec fn obeys_eq_spec() -> bool { true } open spec fn eq_spec(&self, other: &IdentityId) -> bool { self.o == other.o } }
 impl Identity {
     pub uninterp spec fn uuid(&self) -> Uuid;
     pub uninterp spec fn memberof(&self) -> Set<Uuid>;
     #[verifier::external_body] pub fn get_uuid(&self) -> (r: Uuid) ensures r == self.uuid() { unimplemented!() }
     #[verifier::external_body] pub fn is_memberof(&self, g: Uuid) -> (r: bool) ensures r == self.memberof().contains(g) { unimplemented!() }
     #[verifier::external_body] pub fn last_verified_at(&self) -> (r: Option<OffsetDateTime>) { unimplemented!() }
-    #[verifier::external_body] pub fn get_session_id(&self) -> (r: Uuid) { unimplemented!() }
-    #[verifier::external_body] pub fn get_event_origin_id(&self) -> (r: IdentityId) { unimplemented!() }
+    pub uninterp spec fn session_id(&self) -> Uuid;
+    pub uninterp spec fn origin_id(&self) -> IdentityId;
+    #[verifier::external_body] pub fn get_session_id(&self) -> (r: Uuid) ensures r == self.session_id() { unimplemented!() }
+    #[verifier::external_body] pub fn get_event_origin_id(&self) -> (r: IdentityId) ensures r == self.origin_id() { unimplemented!() }
     #[verifier::external_body] pub fn get_oauth2_consent_scopes(&self, rs: Uuid) -> (r: Option<&BTreeSet<String>>) { unimplemented!() }
 }
 
-pub enum OperationError { SerdeJsonError, CryptographyError, Backend, InvalidState }
+pub enum OperationError { SerdeJsonError, CryptographyError, Backend, InvalidState, InvalidSessionState, InvalidRequestState }
 // opaque field types of the extracted structs
 pub mod serde_json { pub mod value { pub struct Value { pub o: u8 } } }
 pub struct Origin { pub o: u8 }
@@ -111,12 +115,17 @@ pub struct JweSerdeError { pub o: u8 }
 pub struct JweCryptoError { pub o: u8 }
 impl<T> Jwe<T> { pub uninterp spec fn payload(&self) -> T; }
 impl<T> JweBuilderS<T> { pub uninterp spec fn payload(&self) -> T; #[verifier::external_body] pub fn build(self) -> (r: Jwe<T>) ensures r.payload() == self.payload() { unimplemented!() } }
-impl<T> JweCompactS<T> { pub uninterp spec fn payload(&self) -> T; #[verifier::external_body] pub fn to_string(&self) -> (r: String) ensures sealed_payload::<T>(r) == Some(self.payload()) { unimplemented!() } }
-pub uninterp spec fn sealed_payload<T>(s: String) -> Option<T>;
+impl<T> JweCompactS<T> { pub uninterp spec fn payload(&self) -> T; #[verifier::external_body] pub fn to_string(&self) -> (r: String) ensures sealed_payload::<T>(r@) == Some(self.payload()) { unimplemented!() } }
+pub uninterp spec fn sealed_payload<T>(s: Seq<char>) -> Option<T>;
 impl JweBuilder { #[verifier::external_body] pub fn into_json<T>(t: &T) -> (r: Result<JweBuilderS<T>, JweSerdeError>) ensures r matches Ok(b) ==> b.payload() == *t { unimplemented!() } }
 impl KeyObject { #[verifier::external_body] pub fn jwe_a128gcm_encrypt<T>(&self, jwe: &Jwe<T>, ct: Duration) -> (r: Result<JweCompactS<T>, JweCryptoError>) ensures r matches Ok(c) ==> c.payload() == jwe.payload() { unimplemented!() } }
 pub struct JweA128GCMEncipher;
 pub struct JweA128KWEncipher { pub o: u8 }
+pub struct JweCompact;
+impl JweCompact { // parsing the compact form: the payload is whatever was sealed into that string (nothing if it was never sealed)
+    #[verifier::external_body] pub fn from_str(s: &str) -> (r: Result<JweCompactS<ConsentToken>, JweSerdeError>) ensures r matches Ok(c) ==> sealed_payload::<ConsentToken>(s@) == Some(c.payload()) { unimplemented!() } }
+impl Jwe<ConsentToken> { #[verifier::external_body] pub fn from_json(&self) -> (r: Result<ConsentToken, JweSerdeError>) ensures r matches Ok(t) ==> t == self.payload() { unimplemented!() } }
+impl JweA128KWEncipher { #[verifier::external_body] pub fn decipher(&self, c: &JweCompactS<ConsentToken>) -> (r: Result<Jwe<ConsentToken>, JweCryptoError>) ensures r matches Ok(j) ==> j.payload() == c.payload() { unimplemented!() } }
 impl JweA128KWEncipher { #[verifier::external_body] pub fn encipher<E>(&self, jwe: &Jwe<ConsentToken>) -> (r: Result<JweCompactS<ConsentToken>, JweCryptoError>) ensures r matches Ok(c) ==> c.payload() == jwe.payload() { unimplemented!() } }
 // ---- real protocol types extracted from /repo ----
 //@extract ResponseType
@@ -235,6 +244,15 @@ pub open spec fn authorised(this: &IdmServerProxyReadTransaction, maybe_ident: O
 }
 impl IdmServerProxyReadTransaction {
 //@extract check_oauth2_authorisation
+}
+// ---- redeeming the consent token ----
+pub struct QsWrite { pub o: u8 }
+pub struct IdmServerProxyWriteTransaction { pub oauth2rs: Oauth2ResourceServersReadTransaction, pub qs_write: QsWrite }
+impl IdmServerProxyWriteTransaction {
+    // R3: recording the consent on the account (internal_modify of oauth2_consent_scope_map) is redirected to an unspecified stand-in
+    #[verifier::external_body] pub fn kvx_record_consent(&mut self, rs: Uuid, scopes: &BTreeSet<String>, account: Uuid) -> (r: Result<(), OperationError>)
+        ensures final(self).oauth2rs == old(self).oauth2rs { unimplemented!() }
+//@extract check_oauth2_authorise_permit
 }
 }
 fn main(){}
